@@ -242,6 +242,14 @@ Fixpoint find_expr (E : list (lin * var)) (l : lin) : option var :=
 
 Definition red_opt (b : option qd) : option qd := match b with Some v => Some (qd_red v) | None => None end.
 
+(* new_var(lin), since fix 8c419ea: the basic variables of l are replaced by their rows before the row is inserted
+   (`for (v, c) in l.vars: if basic: expr.vars.erase(v); expr += row(v) * c`) *)
+Definition subst_terms (T : list (var * lin)) (l : lin) : lin :=
+  fold_left (fun e t => match trow T (fst t) with
+                        | Some r => lin_add (lin_remove (fst t) e) (lin_scale (snd t) r)
+                        | None => e
+                        end) (lterms l) l.
+
 Definition new_var_lin (s : state) (l : lin) : state * var :=
   match find_expr (exprs s) l with
   | Some x => (s, x)
@@ -250,7 +258,7 @@ Definition new_var_lin (s : state) (l : lin) : state * var :=
       (mkS (nvars s1)
            (fupd (fupd (cb s1) (lb_index slack) (mkB (red_opt (lb_lin s l)) TRUE_lit)) (ub_index slack) (mkB (red_opt (ub_lin s l)) TRUE_lit))
            (fupd (vals s1) slack (qd_red (value_lin s l)))
-           (tinsert slack l (tableau s1))
+           (tinsert slack (subst_terms (tableau s) l) (tableau s1))
            ((l, slack) :: exprs s1) (asrts s1) (conjs s1) (layers s1) (trail s1) (snaps s1), slack)
   end.
 
@@ -447,7 +455,7 @@ Definition asrt_propagate_ub (s : state) (al : assign) (a : assertion) (x_i : va
 (* row::propagate_lb / propagate_ub  (bound propagation along a tableau row)                                     *)
 (* ------------------------------------------------------------------------------------------------------------ *)
 (* the bound of the row expression with its reasons. `lower = true`: sum of c*lb (c>0) and c*ub (c<0).
-   The accumulation starts at 0: the row's known term is NOT added (as in the C++).
+   The accumulation starts at the row's known term (fix 8c419ea; it started at 0 before).
    None = "nothing to propagate" (some needed bound is infinite). `guard` is the variable whose lower bound the
    C++ tests in place of th.lb(c_v) in the third loop of row::propagate_ub (see row_bound_ub_pos). *)
 Fixpoint row_bound (s : state) (lower : bool) (ts : list (var * Q)) (acc : qd) (rs : list lit) : option (qd * list lit) :=
@@ -526,13 +534,13 @@ Definition row_propagate_lb (s : state) (al : assign) (x : var) (l : lin) (v : v
   | None => (al, [], None)
   | Some cv =>
       if qpos cv then
-        match row_bound s true (lterms l) (0, 0) [] with
+        match row_bound s true (lterms l) (qd_of_q (lconst l)) [] with
         | None => (al, [], None)
         | Some (lo, rs) => if ge_lbopt lo (lbv s x)
                            then row_watchers true lo rs al (watchers_of s x) else (al, [], None)
         end
       else
-        match row_bound s false (lterms l) (0, 0) [] with
+        match row_bound s false (lterms l) (qd_of_q (lconst l)) [] with
         | None => (al, [], None)
         | Some (hi, rs) => if le_ubopt hi (ubv s x)
                            then row_watchers false hi rs al (watchers_of s x) else (al, [], None)
@@ -545,13 +553,13 @@ Definition row_propagate_ub (s : state) (al : assign) (x : var) (l : lin) (v : v
   | None => (al, [], None)
   | Some cv =>
       if qpos cv then
-        match row_bound_ub_pos s v (lterms l) (0, 0) [] with
+        match row_bound_ub_pos s v (lterms l) (qd_of_q (lconst l)) [] with
         | None => (al, [], None)
         | Some (hi, rs) => if le_ubopt hi (ubv s x)
                            then row_watchers false hi rs al (watchers_of s x) else (al, [], None)
         end
       else
-        match row_bound s true (lterms l) (0, 0) [] with
+        match row_bound s true (lterms l) (qd_of_q (lconst l)) [] with
         | None => (al, [], None)
         | Some (lo, rs) => if ge_lbopt lo (lbv s x)
                            then row_watchers true lo rs al (watchers_of s x) else (al, [], None)
@@ -737,6 +745,7 @@ Inductive event :=
 | ENewRel (r : rel) (left right : lin) (fresh : nat)
 | ENewEq (al : assign) (left right : lin) (fresh : nat)
 | EPropagate (al : assign) (p : lit)
+| ESetBound (al : assign) (d : dir) (x : var) (v : qd)     (* the public set_lb / set_ub with the TRUE literal as reason *)
 | ECheck (fuel : nat)
 | EPush
 | EPop.
@@ -755,6 +764,7 @@ Definition step (e : event) (s : state) : state * output :=
   | ENewRel r a b fresh => let '(s', l, n) := new_rel r a b fresh s in (s', OLit l n)
   | ENewEq al a b fresh => let '(s', l, n) := new_eq al a b fresh s in (s', OLit l n)
   | EPropagate al p => let '(s', r) := propagate s al p in (s', OProp r)
+  | ESetBound al d x v => let '(s', r) := (match d with Lower => assert_lower s al x v TRUE_lit | Upper => assert_upper s al x v TRUE_lit end) in (s', OProp r)
   | ECheck fuel => let '(s', r) := check fuel s in (s', OCheck r)
   | EPush => (push s, ONone)
   | EPop => (pop s, ONone)
